@@ -1,0 +1,6 @@
+//go:build !verif
+
+package scorch
+
+// verifHook is a no-op unless the package is built with the verif tag.
+func verifHook(point string, s *Scorch, args ...interface{}) {}
